@@ -201,9 +201,11 @@ def run(prop, tier, seed, unit_results):
         try:
             rec, nf = c20_recursion_scan()
             covered = {'update_stages_blocks', 'update_stages', 'add_types_recursive', 'rust_type'}
-            res['report']['recursion_scan'] = {'functions': nf, 'recursive': rec, 'under_cost_or_termination_contract': sorted(covered),
+            # recursion that is structural on an input tree and visits each node once, stated (not proved: the bodies are outside Verus)
+            structural = {'token_text': 'recursion on the nesting of proc_macro2 token groups of the generated module: every token is visited once (TRUSTED stub in unit libmain)'}
+            res['report']['recursion_scan'] = {'functions': nf, 'recursive': rec, 'under_cost_or_termination_contract': sorted(covered), 'structural_recursion_trusted': structural,
                                                'level': 'syntactic call graph of the non-test sources (bounded stand-in, not a proof): recursion occurs only in the functions whose cost / termination is under contract'}
-            extra_rec = [f for f in rec if f not in covered]
+            extra_rec = [f for f in rec if f not in covered and f not in structural]
             if extra_rec:
                 # new recursion that no contract bounds: the step bound says nothing about it (never an alarm by itself)
                 res['undecided'].append({'reason': 'recursion-outside-contract', 'unit': 'recursion-scan', 'detail': 'recursive function(s) without a cost contract: ' + ', '.join(extra_rec)})
